@@ -45,6 +45,7 @@ PLANS = [
     ("chain", ["chain"], [1, 2, 4], 4, 5),
     ("gpos", ["gpos"], [1, 2, 3, 4, 5], 3, 4),
     ("ctxfilt", ["ctxfilt"], [1, 4, 5], 4, 5),
+    ("ctxtrail", ["ctxtrail"], [1, 2, 4, 5], 4, 5),
     ("bigid", ["bigid"], [100, 65535], 2, 2),         # explicit inputs over the whole 16-bit range
 ]
 
